@@ -48,10 +48,14 @@ type PathCase struct {
 	MissK   int      `json:"missk"`   // make the k-th block of the target entity unavailable (0 = none)
 	StaleFS bool     `json:"stalefs"` // multi-block files carry a FileSize that covers their first child only
 	Again   bool     `json:"again"`   // the traversal is run twice in this process; the second run is the one recorded
+	Decoy   bool     `json:"decoy"`   // first the same path is walked from the root of ANOTHER tree (same shape and names, other file bytes) through the same link system
 }
 
 // pathStaleFS is PathCase.StaleFS of the case being built
 var pathStaleFS bool
+
+// pathSaltOffset shifts the file contents of the tree being built (the decoy tree of a case: same shape and names, other bytes)
+var pathSaltOffset int
 
 var renames = []map[string]string{
 	{"a": "a", "b": "b", ".": ".", "..": "..", "x": "absent"},
@@ -68,7 +72,10 @@ func allRenames() []map[string]string {
 	u := mineUniverse(8, "plain")
 	return append(append([]map[string]string{}, renames...),
 		map[string]string{"a": u[10], ".": u[11], "b": "b", "..": "..", "x": "absent"}, // "a" and "." are the two root entries
-		map[string]string{"a": u[8], "b": "b", ".": ".", "..": "..", "x": u[9]})
+		map[string]string{"a": u[8], "b": "b", ".": ".", "..": "..", "x": u[9]},
+		// names of 70..130 bytes (a HAMT hashes the whole name, however long)
+		map[string]string{"a": "a-" + strings.Repeat("long name ", 7), ".": "dot-" + strings.Repeat("0123456789", 9), "b": "b-" + strings.Repeat("x", 126),
+			"..": "dd-" + strings.Repeat("é", 40), "x": "absent-" + strings.Repeat("long name ", 7)})
 }
 
 type builtNode struct {
@@ -94,7 +101,7 @@ func fileContent(kind string, salt int) []byte {
 func buildPTree(st *Store, n PNode, path []string, names map[string]string, out map[string]*builtNode) (*builtNode, error) {
 	ls := st.LinkSystem()
 	key := strings.Join(path, "/")
-	salt := len(out)
+	salt := len(out) + pathSaltOffset
 	switch n.Kind {
 	case "file1", "fileN":
 		content := fileContent(n.Kind, salt)
@@ -332,6 +339,28 @@ func pathOnce(pc *PathCase) (M, error) {
 			}
 		}
 	}
+	if pc.Decoy {
+		// nodes reached at a path from one root say nothing about what the same path leads to from another root
+		pathSaltOffset = 11
+		built2 := map[string]*builtNode{}
+		root2, err2 := buildPTree(st, pc.Tree, nil, names, built2)
+		pathSaltOffset = 0
+		if err2 == nil && !root2.c.Equals(root.c) {
+			if rn2, err := loadNode(ls, root2.c); err == nil {
+				p2 := traversal.Progress{Cfg: &traversal.Config{Ctx: context.Background(), LinkSystem: *ls,
+					LinkTargetNodePrototypeChooser: dagpb.AddSupportToChooser(basicnode.Chooser)}}
+				guard(func() {
+					p2.WalkMatching(rn2, sel, func(p traversal.Progress, n datamodel.Node) error {
+						if n.Kind() == datamodel.Kind_Bytes {
+							n.AsBytes()
+						}
+						return nil
+					})
+				})
+			}
+		}
+		st.TakeLoads()
+	}
 	matches := []M{}
 	prog := traversal.Progress{Cfg: &traversal.Config{
 		Ctx:                            context.Background(),
@@ -454,7 +483,7 @@ func init() {
 				c.Segs = []string{}
 			}
 			pc := &PathCase{Fam: "path", ID: fmt.Sprintf("path-%d", i), Tree: c.Tree, Segs: c.Segs, Target: c.Target, MP: c.MP,
-				Pres: i % 5, Names: (i / 5) % 7, Entry: "builder", Passive: *passive}
+				Pres: i % 5, Names: (i / 5) % 8, Entry: "builder", Passive: *passive, Decoy: !*passive && !*consume && i%2 == 0}
 			if c.Target == "match" && !c.MP && i%3 == 0 {
 				pc.Entry = "selector"
 			}
